@@ -45,6 +45,15 @@ def make_long_case(rng, gen, slot):
         return {'cols': ['id', 'm', 'a'], 'rows': [[k, vals[k], base + k] for k in keys], 'index': None,
                 'strcols': ['m'], 'sdtype': 'object'}
     case['L'], case['R'] = tab([1, 2, 3, 4], 100), tab([5, 6, 7, 8], 200)
+    if kind == 'matcher' and slot % 4 == 2:
+        # self-join: one DataFrame object passed as both tables, matched on two different attributes
+        alt = {k: ('a b' if k != 2 else 'c d') for k in range(1, 9)}
+        case['L'] = {'cols': ['id', 'm', 'a', 'm2'],
+                     'rows': [[k, alt[k], 100 + k, vals[k]] for k in range(1, 9)], 'index': None,
+                     'strcols': ['m', 'm2'], 'sdtype': 'object'}
+        case['R'] = case['L']
+        case['selfjoin'] = 1
+        case['rattr'] = 'm2'
     ids = list(range(50, 50 + len(cand)))
     rng.shuffle(ids)
     case['C'] = {'cols': ['_id', 'l_id', 'r_id', 'extra'],
@@ -138,7 +147,9 @@ def run_case(item):
     tid, case = item
     ssj = lib.load()
     vh = lib.hooks_module()
-    ltable, rtable = record.make_df(case['L'], 'm'), record.make_df(case['R'], 'm')
+    rattr = case.get('rattr', 'm')
+    ltable = record.make_df(case['L'], 'm')
+    rtable = ltable if case.get('selfjoin') else record.make_df(case['R'], 'm')
     cand = make_df_cand(case['C'])
     tok = record.make_tokenizer(case['tok'])
     snaps = [record.snapshot(d) for d in (ltable, rtable, cand)]
@@ -147,16 +158,16 @@ def run_case(item):
     lrows = [{'k': record.key_code(r['id']), 'p': 0 if record.is_missing(r['m']) else 1,
               'v': [], 'nonempty': int(bool(r['m'])) if not record.is_missing(r['m']) else 0,
               'c': [book.code(r[c]) for c in ltable.columns]} for r in ltable.to_dict('records')]
-    rrows = [{'k': record.key_code(r['id']), 'p': 0 if record.is_missing(r['m']) else 1,
-              'v': [], 'nonempty': int(bool(r['m'])) if not record.is_missing(r['m']) else 0,
+    rrows = [{'k': record.key_code(r['id']), 'p': 0 if record.is_missing(r[rattr]) else 1,
+              'v': [], 'nonempty': int(bool(r[rattr])) if not record.is_missing(r[rattr]) else 0,
               'c': [book.code(r[c]) for c in rtable.columns]} for r in rtable.to_dict('records')]
     # token ids (set semantics) for the jaccard / overlap judgements
     oracle = sm.WhitespaceTokenizer(return_set=True)
-    vocab = sorted({t for tab in (ltable, rtable) for v in tab['m'].tolist() if not record.is_missing(v)
-                    for t in oracle.tokenize(v)})
+    vocab = sorted({t for tab, col in ((ltable, 'm'), (rtable, rattr)) for v in tab[col].tolist()
+                    if not record.is_missing(v) for t in oracle.tokenize(v)})
     ids = {t: j + 1 for j, t in enumerate(vocab)}
-    for rows, tab in ((lrows, ltable), (rrows, rtable)):
-        for row, v in zip(rows, tab['m'].tolist()):
+    for rows, tab, col in ((lrows, ltable, 'm'), (rrows, rtable, rattr)):
+        for row, v in zip(rows, tab[col].tolist()):
             if not record.is_missing(v):
                 row['v'] = sorted(ids[t] for t in set(oracle.tokenize(v)))
     rec = {'tid': tid, 'kind': case['kind'], 'op': case['op'], 't': case['t'], 'am': case['am'],
@@ -188,7 +199,7 @@ def run_case(item):
                     simfn = sm.Jaccard().get_raw_score
                 else:
                     simfn = plain_jaccard
-                result = ssj.apply_matcher(cand, 'l_id', 'r_id', ltable, rtable, 'id', 'id', 'm', 'm',
+                result = ssj.apply_matcher(cand, 'l_id', 'r_id', ltable, rtable, 'id', 'id', 'm', rattr,
                                            tok if case.get('tokmode', 1) else None, simfn, thr, case['op'],
                                            allow_missing=bool(case['am']), l_out_attrs=case.get('lout'),
                                            r_out_attrs=case.get('rout'), l_out_prefix=rec['lpre'],
